@@ -160,6 +160,8 @@ def install():
     def _isinstance(ex, v, t):
         ts = t if isinstance(t, tuple) else (t,)
         for c in ts:
+            if isinstance(c, Builtin) and c.name in ('str', 'int', 'float', 'bool', 'list', 'tuple', 'dict', 'set'):
+                c = PyClassRef(c.name)
             if isinstance(c, ClassRef):
                 if isinstance(v, Obj) and v.cls is not None and v.cls.is_subclass_of(c.info.name):
                     return True
@@ -173,6 +175,8 @@ def install():
                 if c.name == 'bool' and (isinstance(v, bool) or isinstance(v, Sym) and v.is_bool):
                     return True
                 if c.name in ('list', 'tuple', 'dict', 'set') and type(v).__name__ == c.name:
+                    return True
+                if c.name == 'PathLike' and type(v).__name__ == 'PyPath':
                     return True
             elif isinstance(c, Opaque):
                 if isinstance(v, (Obj, str, SStr, int, float, Sym, list, tuple, dict)) or v is None:
@@ -407,6 +411,14 @@ def install():
     @_B('math.isclose')
     def _isclose(ex, *a, **k):
         raise Unsupported('math.isclose')
+
+    @_B('contextlib.nullcontext')
+    def _nullcontext(ex, x=None):
+        return x
+
+    @_B('contextlib.closing')
+    def _closing(ex, x):
+        return x
 
     @_B('pathlib.Path')
     def _path(ex, p):
